@@ -49,6 +49,10 @@ def plan(tier, seed):
     specs.append(dict(name="shortage-O", mode="interp", what="shortage", part=0, parts=2 if q else 6, Kmax=4 if q else 5, env=opt))
     specs.append(dict(name="nodonor-O", mode="interp", what="nodonor", seed=seed, part=1, n=4, env=opt))
     specs.append(dict(name="tasks-O", mode="interp", what="tasks", input=1, mp=True, seed=seed, classes=1, env=opt))
+    # the same task faults with the call made from a thread of the caller's program other than the main thread
+    for mp in (False, True):
+        specs.append(dict(name="tasks-thread-%s" % ("mp" if mp else "sp"), mode="interp", what="tasks", input=0 if mp else 1, mp=mp, seed=seed,
+                          classes=1, in_thread=True))
     if not q:
         for i in range(3):
             specs.append(dict(name="death-%d" % i, mode="interp", what="death", input=i, seed=seed, timeout=240))
@@ -64,6 +68,7 @@ def make_input(seed, i):
     case["data"]["seg"] = 8
     case["data"]["flavor"] = "plain"
     case["biased"] = True
+    case.pop("start_method", None)     # (the start method is a configuration of its own here, not part of the input)
     case["limit"] = 3
     case["eps"] = 0.0
     case["m"] = 2
@@ -283,6 +288,8 @@ def run_case_with_phase_plan(case):
 def run_tasks(spec, res):
     case = make_input(spec["seed"], spec["input"])
     case["mp"] = spec["mp"]
+    if spec.get("in_thread"):
+        case["in_thread"] = True
     info = learn(case)
     if info is None:
         res.inconclusive.append("clean reference run of input %d failed" % spec["input"])
@@ -296,8 +303,11 @@ def run_tasks(spec, res):
                 cls, msg = ["AssertionError", "MemoryError", "KeyError"][(n // 5) % 3], None      # an exception with empty args
             c = dict(case)
             c["task_plan"] = {str(n): {"raise_": (cls, msg)}}
-            label = "task %d (round %d, cluster %d) raises %s, %s pool" % (n, n // case["K"], n % case["K"], cls, "3-process" if spec["mp"] else "single-process")
-            fired = faulted_call(res, c, (cls, msg), label, "task-%d-%s-%s-in%d" % (n, cls, spec["mp"], spec["input"]))
+            label = "task %d (round %d, cluster %d) raises %s, %s pool%s" % (n, n // case["K"], n % case["K"], cls, "3-process" if spec["mp"] else "single-process",
+                                                                              ", call made from a non-main thread" if spec.get("in_thread") else "")
+            if spec.get("in_thread"):
+                res.count("faulted_calls_from_a_non_main_thread")
+            fired = faulted_call(res, c, (cls, msg), label, "task-%d-%s-%s-in%d%s" % (n, cls, spec["mp"], spec["input"], "-thr" if spec.get("in_thread") else ""))
             if fired:
                 clean_call(res, case, info["digest"], label)
     res.sample(dict(case=case, rounds=info["R"], tasks=info["ntasks"], pool="3-process" if spec["mp"] else "single-process"))
@@ -652,7 +662,7 @@ def finalize(merged, tier):
     c = merged["counters"]
     for key, least in (("faults_fired", 25 if q else 300), ("clean_calls_after_failure", 25 if q else 300), ("frontend_swaps", 9),
                        ("init_faults_fired", 4 if q else 20), ("natural_worker_failures", 3 if q else 12), ("shortage_states_with_partial_capacity", 200 if q else 2000),
-                       ("nodonor_errors", 2 if q else 6)):
+                       ("nodonor_errors", 2 if q else 6), ("faulted_calls_from_a_non_main_thread", 5)):
         if c.get(key, 0) < least:
             out["inconclusive"].append("monitor counter %s=%d below %d" % (key, c.get(key, 0), least))
     out["fault_plan"] = "every task index and every (phase, round, before/after) of each driven run, both pool modes"
